@@ -17,9 +17,11 @@ import (
 	"strings"
 	"sync"
 	"testing"
+	"testing/synctest"
 
 	"github.com/pion/interceptor"
 	"github.com/pion/interceptor/pkg/twcc"
+	"github.com/pion/rtcp"
 	"github.com/pion/rtp"
 )
 
@@ -336,8 +338,50 @@ type c15Owned struct {
 	cur, orig []byte
 }
 
+// c15Run: cases whose ambient chain holds other interceptors run inside a synctest bubble, so that "the NACK
+// responder's retransmission goroutine has finished" is a point the interpreter can wait for.
 func c15Run(t *testing.T, ops []string, o *Out) {
+	if o != nil && o.Amb != nil && len(o.Amb.Before)+len(o.Amb.After) > 0 {
+		synctest.Test(t, func(t *testing.T) { c15RunCase(t, ops, o, synctest.Wait) })
+		return
+	}
+	c15RunCase(t, ops, o, func() {})
+}
+
+// c15Sent: what a retransmitting party keeps of a packet written with header.SSRC == the stream's SSRC
+// (the NACK responder's rule): a deep copy as handed to Write, and the line the bottom writer printed for it.
+type c15Sent struct {
+	h    *rtp.Header
+	pl   []byte
+	line string
+	wire bool // it reached the bottom writer
+}
+
+func c15RunCase(t *testing.T, ops []string, o *Out, settle func()) {
 	ic := newHdrExt(t)
+	// the interceptor under test inside the case's ambient chain (ambient_test.go); the chain's RTCP reader is
+	// where NACKs for a NACK-responder neighbour come in
+	var chain interceptor.Interceptor
+	var rtcpReader interceptor.RTCPReader
+	var rtcpIn []byte
+	build := func() {
+		if chain != nil {
+			_ = chain.Close()
+		}
+		chain = o.Wrap(ic)
+		rtcpReader = chain.BindRTCPReader(interceptor.RTCPReaderFunc(
+			func(b []byte, a interceptor.Attributes) (int, interceptor.Attributes, error) {
+				return copy(b, rtcpIn), o.Bottom(a), nil
+			}))
+	}
+	build()
+	defer func() {
+		_ = chain.Close()
+		settle()
+	}()
+	sent := map[[2]int]*c15Sent{}
+	var lastLine string
+	var lastWire bool
 	writers := map[int]interceptor.RTPWriter{}
 	// the bottom writer of the next call: result to return
 	var bn, be int
@@ -371,7 +415,8 @@ func c15Run(t *testing.T, ops []string, o *Out) {
 		if h != nil {
 			pad = int(h.PaddingSize)
 		}
-		o.P("w hdr=%s pad=%d pl=%s", hdrHex(h), pad, hexs(p))
+		lastLine, lastWire = fmt.Sprintf("w hdr=%s pad=%d pl=%s", hdrHex(h), pad, hexs(p)), true
+		o.P("%s", lastLine)
 	}
 	bottom := interceptor.RTPWriterFunc(func(h *rtp.Header, p []byte, _ interceptor.Attributes) (int, error) {
 		if burst != nil {
@@ -407,7 +452,9 @@ func c15Run(t *testing.T, ops []string, o *Out) {
 			case "setc":
 				v := atoi(m["v"])
 				ic = newHdrExt(t)
+				build()
 				writers = map[int]interceptor.RTPWriter{}
+				sent = map[[2]int]*c15Sent{}
 				ic.VerifSetNextSequenceNr(uint32(v))
 			case "bind":
 				ds, ok := parseDecls(m["exts"])
@@ -416,7 +463,17 @@ func c15Run(t *testing.T, ops []string, o *Out) {
 					return
 				}
 				s := atoi(m["s"])
-				writers[s] = ic.BindLocalStream(&interceptor.StreamInfo{SSRC: uint32(s), RTPHeaderExtensions: ds}, bottom)
+				info := &interceptor.StreamInfo{SSRC: uint32(s), RTPHeaderExtensions: ds,
+					RTCPFeedback: []interceptor.RTCPFeedback{{Type: "nack", Parameter: "pli"}, {Type: "transport-cc"}, {Type: "nack"}}}
+				writers[s] = chain.BindLocalStream(info, bottom)
+				if len(info.RTPHeaderExtensions) != len(ds) || len(info.RTCPFeedback) != 3 {
+					o.P("streaminfo-modified")
+				}
+				for i := range ds {
+					if i < len(info.RTPHeaderExtensions) && info.RTPHeaderExtensions[i] != ds[i] {
+						o.P("streaminfo-modified")
+					}
+				}
 			case "retain":
 				retain = true
 			case "buf":
@@ -487,8 +544,54 @@ func c15Run(t *testing.T, ops []string, o *Out) {
 				ownHeader(h) // the slices the caller handed to SetExtension stay the caller's
 				own(pl)
 				bn, be = atoi(m["bn"]), code
-				n, err := w.Write(h, pl, interceptor.Attributes{})
+				var keep *c15Sent
+				if h != nil && int(h.SSRC) == atoi(m["s"]) {
+					c := h.Clone()
+					keep = &c15Sent{h: &c, pl: append([]byte(nil), pl...)}
+				}
+				lastWire = false
+				// with `reusehdr=1` the application fills its one long-lived header in place (ambient_test.go)
+				n, err := w.Write(o.Header(h), pl, o.Attrs(interceptor.Attributes{}))
 				o.P("ret n=%d err=%s", n, c15ErrClass(err))
+				if keep != nil {
+					keep.line, keep.wire = lastLine, lastWire
+					sent[[2]int{atoi(m["s"]), int(keep.h.SequenceNumber)}] = keep
+				}
+			case "rtx":
+				// the packet first written on stream s with RTP sequence number seq is asked for again (a NACK).
+				// pos=outer: it is retransmitted from ABOVE the interceptor under test (it passes through it once
+				// more: a fresh transport-wide number); pos=inner: from BELOW it (what was first sent goes out again).
+				// The retransmitting party is the NACK responder of the ambient chain when there is one at that
+				// position; otherwise the application (outer) resp. the transport (inner) itself, from its own copy.
+				sx, seq, code := atoi(m["s"]), atoi(m["seq"]), atoi("0"+m["be"])
+				pos := m["pos"]
+				if _, ok := writers[sx]; !ok || retain || (pos != "outer" && pos != "inner") || m["seq"] == "" || seq > 65535 ||
+					m["bn"] == "" || m["be"] == "" || code < 0 || code >= len(c15BottomErrs) {
+					o.P("bad-op")
+					return
+				}
+				bn, be = atoi(m["bn"]), code
+				if o.Has("resp", pos == "inner") {
+					raw, err := rtcp.Marshal([]rtcp.Packet{&rtcp.TransportLayerNack{SenderSSRC: 5, MediaSSRC: uint32(sx),
+						Nacks: []rtcp.NackPair{{PacketID: uint16(seq)}}}})
+					if err != nil {
+						panic(err)
+					}
+					rtcpIn = raw
+					if _, _, err := rtcpReader.Read(make([]byte, 1500), o.Attrs(interceptor.Attributes{})); err != nil {
+						o.P("err:read")
+					}
+					settle() // the retransmission goroutine is done
+					return
+				}
+				k, ok := sent[[2]int{sx, seq}]
+				switch {
+				case !ok:
+				case pos == "outer":
+					_, _ = writers[sx].Write(k.h, k.pl, interceptor.Attributes{})
+				case k.wire:
+					o.P("%s", k.line)
+				}
 			case "burst":
 				s, n := atoi(m["s"]), atoi(m["n"])
 				w, ok := writers[s]
@@ -711,7 +814,8 @@ func c15Gen(r *Rng, tier string, idx int) Case {
 	// the framework seeds case i with s0+i*gamma and splitmix64 steps by the same gamma, so the
 	// raw streams of neighbouring cases are shifted copies of each other; re-key from one output.
 	r = NewRng(r.U64() ^ 0xC15C15C15)
-	classes := []string{"onebyte", "twobyte", "noext", "mixed", "excluded", "wrap16", "wrap32", "stale", "burst", "alias", "faults"}
+	classes := []string{"onebyte", "twobyte", "noext", "mixed", "excluded", "wrap16", "wrap32", "stale", "burst", "alias", "faults",
+		"rtxinner", "rtxouter"}
 	cl := classes[idx%len(classes)]
 	concEvery := 125
 	if tier == "thorough" {
@@ -749,6 +853,9 @@ func c15Gen(r *Rng, tier string, idx int) Case {
 		c0 := r.Pick(0, 65000, 4294967295-30000, 4294960000, int(r.U64()&0xFFFFFFFF))
 		ops = append(ops, fmt.Sprintf("conc c0=%d ids=%s per=%d epochs=%d seed=%d fail=%d", c0, joinInts(ids), per, epochs, r.Intn(1<<30), r.Pick(0, 2, 3, 7, 50)))
 		return Case{Class: cl, Ops: ops}
+	}
+	if cl == "rtxinner" || cl == "rtxouter" {
+		return Case{Class: cl, Ops: c15GenRtx(r, cl == "rtxinner")}
 	}
 	// the bottom writer's result: mostly success; failures with different error VALUES
 	faultDen := 6
@@ -861,4 +968,97 @@ func c15Gen(r *Rng, tier string, idx int) Case {
 	}
 	ops = append(ops, "flush")
 	return Case{Class: cl, Ops: ops}
+}
+
+// c15GenRtx: the header-extension interceptor in a chain with the NACK responder below it (`inner`: application ->
+// twcc -> responder -> transport, the order pion/webrtc registers them in) or above it (`outer`: application ->
+// responder -> twcc -> transport, so that retransmissions get fresh transport-wide numbers), other transparent
+// neighbours around them, an application that mostly re-uses ONE rtp.Header and one extension payload buffer for
+// every packet, and NACKs that trigger retransmissions between the writes.  Every packet that reaches the bottom
+// writer - media or retransmission - must be the one the model predicts: a retransmission equals what was first
+// sent (inner) resp. differs from it in the fresh number only (outer).  One case in six has no responder: the
+// application / transport retransmits from its own copy.
+func c15GenRtx(r *Rng, inner bool) []string {
+	var ops []string
+	pos := "outer"
+	if inner {
+		pos = "inner"
+	}
+	if !r.Chance(1, 6) {
+		before, after := c05PickS(r, "", "", "stats", "noop"), c05PickS(r, "", "", "stats", "noop")
+		if inner {
+			before = c05PickS(r, "resp", "resp", "resp,stats", "noop,resp", "stats,resp")
+		} else {
+			after = c05PickS(r, "resp", "resp", "stats,resp", "resp,noop", "resp,stats")
+		}
+		amb := ambOp(before, after, true, false, r.Chance(1, 4), false)
+		if r.Chance(3, 4) {
+			amb += " reusehdr=1"
+		}
+		ops = append(ops, amb)
+	}
+	switch r.Intn(4) {
+	case 0:
+		ops = append(ops, fmt.Sprintf("setc v=%d", r.Range(1, 5)*65536-r.Range(0, 6)))
+	case 1:
+		ops = append(ops, fmt.Sprintf("setc v=%d", r.U64()&0xFFFFFFFF))
+	}
+	ns := r.Range(1, 3)
+	ids := make([]int, ns)
+	next := make([]int, ns)
+	hist := make([][]int, ns)
+	for s := 0; s < ns; s++ {
+		ids[s] = r.Range(1, 14)
+		if r.Chance(1, 6) {
+			ids[s] = r.Pick(0, -1000, 15, 200) // not negotiated / a two-byte id
+		}
+		ops = append(ops, fmt.Sprintf("bind s=%d exts=%s", s, c15Decls(r, ids[s])))
+		next[s] = r.Pick(r.Intn(65536), 65530, 0, 65535)
+	}
+	beCode := func() int {
+		if r.Chance(1, 8) {
+			return r.Range(1, len(c15BottomErrs)-1)
+		}
+		return 0
+	}
+	rtx := func() {
+		s := r.Intn(ns)
+		seq := (next[s] + r.Range(1, 9)) & 0xFFFF // never sent
+		if len(hist[s]) > 0 && !r.Chance(1, 8) {
+			seq = hist[s][len(hist[s])-1-r.Intn(min(len(hist[s]), 6))]
+		}
+		ops = append(ops, fmt.Sprintf("rtx s=%d seq=%d pos=%s bn=%d be=%d", s, seq, pos, r.Intn(100), beCode()))
+		if r.Chance(1, 4) { // asked for again
+			ops = append(ops, fmt.Sprintf("rtx s=%d seq=%d pos=%s bn=%d be=%d", s, seq, pos, r.Intn(100), beCode()))
+		}
+	}
+	n := r.Range(6, 22)
+	for i := 0; i < n; i++ {
+		if i > 1 && r.Chance(1, 3) {
+			rtx()
+			continue
+		}
+		s := r.Intn(ns)
+		eff := ids[s]
+		if eff < 0 || eff > 255 {
+			eff = 0
+		}
+		h := genHdr(r, r.Pick(0, 1, 2, 1, 2, 1, 2, 4, 3), eff)
+		// the stream's own SSRC (the responder keeps nothing else) and its next sequence number, in order
+		h.SSRC = s
+		if r.Chance(1, 12) {
+			h.SSRC = s + 100 // another SSRC on this writer: passed on, never kept
+		}
+		next[s] = (next[s] + r.Pick(1, 1, 1, 2, 3)) & 0xFFFF
+		h.Seq = next[s]
+		if h.SSRC == s {
+			hist[s] = append(hist[s], h.Seq)
+		}
+		pl := genPayload(r)
+		ops = append(ops, fmt.Sprintf("write s=%d %s pl=%s bn=%d be=%d", s, h.String(), hexs(pl), r.Pick(len(pl), 0, 1500), beCode()))
+	}
+	for k := r.Range(1, 3); k > 0; k-- {
+		rtx()
+	}
+	return append(ops, "flush")
 }
